@@ -1,3 +1,194 @@
 package main
 
-func (w *World) discoverRoles() {}
+// Structural discovery of roles whose conventional name is absent (the
+// function was renamed / moved).  Each role is defined by what the function
+// DOES, never by how it is called:
+//
+//   raw writer   (*Encoder).writeBytes : the Encoder method with one []byte
+//                parameter that invokes Write on an io.Writer held in a field of
+//                its receiver (the only leaf write of the encoder);
+//   tag writer   (*Encoder).writeBT    : the Encoder method with one variadic
+//                ...byte parameter that hands exactly that parameter to the raw
+//                writer;
+//   struct-field dispatcher (*Decoder).readStruct : the Decoder method
+//                `func() (interface{}, error)` other than the value dispatch that
+//                obtains a fresh tag itself and is reached from the field reader
+//                without passing through another tag-reading function.
+//
+// A role is only discovered when exactly one function qualifies; otherwise the
+// anchor stays missing and the rules report UNDECIDED as before.
+
+import (
+	"go/types"
+
+	"golang.org/x/tools/go/ssa"
+)
+
+func (w *World) discoverRoles() {
+	if w.roleNames == nil {
+		w.roleNames = map[*ssa.Function]string{}
+	}
+	set := func(name string, fn *ssa.Function) {
+		if fn == nil || w.Funcs[name] != nil {
+			return
+		}
+		w.rolesCache[name] = fn
+		w.roleNames[fn] = name
+	}
+	set("(*Encoder).writeBytes", w.discoverRawWriter())
+	set("(*Encoder).writeBT", w.discoverTagWriter(w.fn("(*Encoder).writeBytes")))
+	set("(*Decoder).readStruct", w.discoverStructDispatcher())
+}
+
+// canonName: the display name rules use for fn: the name of the role it was
+// discovered for, or its own name.
+func (w *World) canonName(fn *ssa.Function) string {
+	if w.rolesCache == nil {
+		w.rolesCache = map[string]*ssa.Function{}
+		w.discoverRoles()
+	}
+	if n, ok := w.roleNames[fn]; ok {
+		return n
+	}
+	return fnName(fn)
+}
+
+func isByteSliceType(t types.Type) bool {
+	s, ok := t.Underlying().(*types.Slice)
+	if !ok {
+		return false
+	}
+	b, ok := s.Elem().Underlying().(*types.Basic)
+	return ok && b.Kind() == types.Uint8
+}
+
+func (w *World) discoverRawWriter() *ssa.Function {
+	var found *ssa.Function
+	for _, c := range w.leafWrites() {
+		fn := c.Parent()
+		recv := fn.Signature.Recv()
+		if recv == nil || !namedIs(recv.Type(), hessianPath, "Encoder") || fn.Parent() != nil {
+			continue
+		}
+		ps := fn.Signature.Params()
+		if ps.Len() != 1 || !isByteSliceType(ps.At(0).Type()) || fn.Signature.Variadic() {
+			continue
+		}
+		// the writer is a field of the receiver, and what is written is the parameter
+		ld, ok := c.Call.Value.(*ssa.UnOp)
+		if !ok {
+			continue
+		}
+		fa, ok := ld.X.(*ssa.FieldAddr)
+		if !ok || len(fn.Params) != 2 || fa.X != ssa.Value(fn.Params[0]) {
+			continue
+		}
+		if len(c.Call.Args) != 1 || c.Call.Args[0] != ssa.Value(fn.Params[1]) {
+			continue
+		}
+		if found != nil && found != fn {
+			return nil
+		}
+		found = fn
+	}
+	return found
+}
+
+func (w *World) discoverTagWriter(raw *ssa.Function) *ssa.Function {
+	if raw == nil {
+		return nil
+	}
+	var found *ssa.Function
+	for _, fn := range w.SrcFuncs() {
+		recv := fn.Signature.Recv()
+		if recv == nil || fn.Parent() != nil || !namedIs(recv.Type(), hessianPath, "Encoder") || !fn.Signature.Variadic() {
+			continue
+		}
+		ps := fn.Signature.Params()
+		if ps.Len() != 1 || !isByteSliceType(ps.At(0).Type()) || len(fn.Params) != 2 {
+			continue
+		}
+		forwards := false
+		for _, b := range fn.Blocks {
+			for _, in := range b.Instrs {
+				if c, ok := in.(*ssa.Call); ok && c.Call.StaticCallee() == raw && len(c.Call.Args) == 2 && c.Call.Args[1] == ssa.Value(fn.Params[1]) {
+					forwards = true
+				}
+			}
+		}
+		if !forwards {
+			continue
+		}
+		if found != nil {
+			return nil
+		}
+		found = fn
+	}
+	return found
+}
+
+// readsFreshTag: fn itself calls a tag source (readTag / getTag).
+func (w *World) readsFreshTag(fn *ssa.Function) bool {
+	for _, b := range fn.Blocks {
+		for _, in := range b.Instrs {
+			c, ok := in.(*ssa.Call)
+			if !ok {
+				continue
+			}
+			if sc := c.Call.StaticCallee(); sc != nil {
+				switch qualifiedFnName(sc) {
+				case "getTag", "readTag", "(*Decoder).readTag":
+					return true
+				}
+			}
+		}
+	}
+	return false
+}
+
+func (w *World) discoverStructDispatcher() *ssa.Function {
+	rf, rd := w.Funcs["(*Decoder).readField"], w.Funcs["(*Decoder).ReadData"]
+	if rf == nil {
+		return nil
+	}
+	isCand := func(fn *ssa.Function) bool {
+		sig := fn.Signature
+		if fn == rd || sig.Recv() == nil || !namedIs(sig.Recv().Type(), hessianPath, "Decoder") || sig.Params().Len() != 0 || sig.Results().Len() != 2 {
+			return false
+		}
+		if _, isIface := sig.Results().At(0).Type().Underlying().(*types.Interface); !isIface || !isErrorType(sig.Results().At(1).Type()) {
+			return false
+		}
+		return w.readsFreshTag(fn)
+	}
+	// from the field reader through functions that do not read a tag themselves
+	seen := map[*ssa.Function]bool{rf: true}
+	stack := []*ssa.Function{rf}
+	var found *ssa.Function
+	for len(stack) > 0 {
+		f := stack[len(stack)-1]
+		stack = stack[:len(stack)-1]
+		n := w.CG.Nodes[f]
+		if n == nil {
+			continue
+		}
+		for _, e := range n.Out {
+			c := e.Callee.Func
+			if c == nil || !w.inPkg(c) || seen[c] {
+				continue
+			}
+			seen[c] = true
+			if isCand(c) {
+				if found != nil && found != c {
+					return nil
+				}
+				found = c
+				continue
+			}
+			if !w.readsFreshTag(c) {
+				stack = append(stack, c)
+			}
+		}
+	}
+	return found
+}
